@@ -99,7 +99,16 @@ def run_parallel_case(case, watchdog_s=20.0):
       pool = shims.ThreadPoolExecutor(max_workers=case.get('pool_size', 8),
                                       thread_name_prefix='given')
       info['given_pool'] = pool
-    sources = [src(k) for k in range(len(case['inputs']))]
+    kinds = case.get('src_kinds') or ['gen'] * len(case['inputs'])
+
+    def source(k):
+      if kinds[k] == 'gen' or (fail and fail['where'] == 'input' and fail['src'] == k):
+        return src(k)
+      info.setdefault('sequence_inputs', []).append((k, kinds[k], case['inputs'][k]))
+      rows = [(k, i) for i in range(case['inputs'][k])]
+      return rows if kinds[k] == 'list' else tuple(rows)
+
+    sources = [source(k) for k in range(len(case['inputs']))]
     obj = None
     if api == 'piter_multiplex':
       obj = iter_utils.piter_multiplex(sources, pool, buffer_size=buf)
@@ -203,7 +212,8 @@ def analyse(case, sched, log, info):
     rets = [e[1] for e in log if e[0] == 'returned']
     if rets and case['api'] in ('piter_multiplex', 'piter_fn', 'piter') and (
         case['api'] == 'piter_multiplex' or case['fn'] in (None, 'id_ret')):
-      want_r = sorted(f'ret{k}' for k in range(len(case['inputs'])))
+      seq_in = {k for k, _, _ in (info or {}).get('sequence_inputs', [])}
+      want_r = sorted(f'ret{k}' for k in range(len(case['inputs'])) if k not in seq_in)
       if case['api'] == 'piter_multiplex' and sorted(map(str, rets[0])) != want_r:
         out.append(('returned_values', {'got': list(rets[0]), 'want': want_r}))
   elif fail and stop_after is None:
